@@ -8,6 +8,9 @@
 //!   val <value>       `RETURN <expr> AS v` through ndb_query and through Rust → `eq|ne | <canonical C JSON>`
 //!   prop <value>      a node property written through the Rust API (blob, datetime, non-finite float), read through both
 //!   errc <code>       an erroneous statement → `<C category> <Rust phase>` (prepare | execute)
+//!   het <shape> <asc|desc>   a read statement whose result COLUMN is heterogeneous across rows (null / scalar / empty
+//!                     list in some rows, node / relationship / path — also nested — in others; ORDER BY decides which
+//!                     comes first) through ndb_query and through Rust → `eq|ne`
 //! clause tokens: m om wh u wi c mg s rm d r ex, groups `fe( … )` FOREACH, `cs( … )` CALL { … }, `un( … )` UNION …
 //! values: n t f i<int> F<16 hex bits> s<word> l( … ) m( key value … ) ; prop also: b<len> (blob) d<int> (datetime)
 use super::{State, StreamDef, no_child};
@@ -256,6 +259,24 @@ fn prop_value(tok: &str) -> Option<PropertyValue> {
     })
 }
 
+/// heterogeneous columns on the start graph (:A k=1)-[:R]->(:A k=2), (:A k=3); `{O}` = ASC | DESC
+const HET: &[(&str, &str)] = &[
+    ("optnode", "MATCH (a:A) OPTIONAL MATCH (a)-[:R]->(b) RETURN a.k AS k, b AS v ORDER BY k {O}"),
+    ("optrel", "MATCH (a:A) OPTIONAL MATCH (a)-[r:R]->(b) RETURN a.k AS k, r AS v ORDER BY k {O}"),
+    ("optpath", "MATCH (a:A) OPTIONAL MATCH p = (a)-[:R]->(b) RETURN a.k AS k, p AS v ORDER BY k {O}"),
+    ("collect", "MATCH (a:A) OPTIONAL MATCH (a)-[:R]->(b) WITH a, collect(b) AS bs RETURN a.k AS k, bs AS v ORDER BY k {O}"),
+    ("case", "MATCH (n:A) RETURN n.k AS k, CASE WHEN n.k = 2 THEN n ELSE n.k END AS v ORDER BY k {O}"),
+    ("caselast", "MATCH (n:A) RETURN n.k AS k, CASE WHEN n.k = 3 THEN n ELSE 'none' END AS v ORDER BY k {O}"),
+    ("coalesce", "MATCH (a:A) OPTIONAL MATCH (a)-[:R]->(b) RETURN a.k AS k, coalesce(b, 'none') AS v ORDER BY k {O}"),
+    ("nestlist", "MATCH (n:A) RETURN n.k AS k, CASE WHEN n.k > 1 THEN [n, [n.k, n]] ELSE [] END AS v ORDER BY k {O}"),
+    ("nestmap", "MATCH (n:A) RETURN n.k AS k, CASE WHEN n.k < 3 THEN {x: n, y: [n]} ELSE {x: 1} END AS v ORDER BY k {O}"),
+    ("unwind", "MATCH (n:A {k: 1}) UNWIND [0, 1, 2] AS i RETURN i AS k, CASE WHEN i = 1 THEN n ELSE i END AS v ORDER BY k {O}"),
+    ("union", "RETURN 0 AS k, 'plain' AS v UNION MATCH (n:A {k: 1}) RETURN n.k AS k, n AS v"),
+    ("unionrev", "MATCH (n:A {k: 1}) RETURN n.k AS k, n AS v UNION RETURN 0 AS k, 'plain' AS v"),
+    ("twocols", "MATCH (a:A) OPTIONAL MATCH (a)-[r:R]->(b) RETURN a.k AS k, b AS v, r AS w, a AS u ORDER BY k {O}"),
+    ("allplainfirst", "MATCH (a:A) OPTIONAL MATCH (a)-[r:R]->(b) RETURN b AS v, r AS w ORDER BY a.k {O}"),
+];
+
 const ERR_STMTS: &[(&str, &str)] = &[
     ("paren", "MATCH (n RETURN n"),
     ("token", "RETURN 1 +* 2"),
@@ -361,6 +382,19 @@ impl State for S {
                 let rv: Vec<String> = r.iter().filter_map(|row| row.first()).map(|(_, v)| canon_value(v)).collect();
                 // the node written by this op is the last one of the scan
                 format!("{} | {}", if cv.last() == rv.last() && cv.len() == rv.len() { "eq" } else { "ne" }, cv.last().cloned().unwrap_or_default())
+            }
+            "het" => {
+                let Some((_, tpl)) = HET.iter().find(|(c, _)| Some(c) == ws.get(1)) else { return "bad-op".into() };
+                let cy = tpl.replace("{O}", if ws.get(2) == Some(&"desc") { "DESC" } else { "ASC" });
+                let c = match self.c.query(&cy, None) {
+                    Ok(v) => canon_c_rows(&v),
+                    Err(e) => return format!("err | {}", category_name(e.category)),
+                };
+                let r = match self.rust_read(&cy) {
+                    Ok(r) => canon_rust_rows(&r),
+                    Err(_) => return "err | rust".into(),
+                };
+                if c == r { "eq".into() } else { "ne".into() }
             }
             "errc" => {
                 let Some((_, cy)) = ERR_STMTS.iter().find(|(c, _)| Some(c) == ws.get(1)) else { return "bad-op".into() };
@@ -504,6 +538,12 @@ fn gen_value(rng: &mut Rng, depth: u32) -> Vec<String> {
 }
 
 fn generate(rng: &mut Rng, n: usize, _tier: &str, out: &mut dyn Write) {
+    // heterogeneous result columns, on the untouched start graph, both row orders
+    writeln!(out, "#case het").unwrap();
+    for (code, _) in HET {
+        writeln!(out, "het {} asc", code).unwrap();
+        writeln!(out, "het {} desc", code).unwrap();
+    }
     let mut produced = 0;
     let mut case = 0;
     while produced < n {
